@@ -559,7 +559,8 @@ def c07(run, selftest=True):
     run.vh("fragments", frags)
     for module, spec_name, cfg, env in (("syntargets", "SynTargets", simple_cfg("C13_Matrix EmitDone"), {"FRAGMENTS": frags}),
                                        ("scalars", "Scalars", simple_cfg("C11_Exact EmitDone"), None),
-                                       ("scalarforms", "ScalarForms", simple_cfg("C11_Forms EmitDone"), None)):
+                                       ("scalarforms", "ScalarForms", simple_cfg("C11_Forms EmitDone"), None),
+                                       ("sequences", "SeqTargets", simple_cfg("Seq_FirstError EmitDone", "  MaxLen = 2\n"), None)):
         res = run.tlc(spec_name, cfg, "c07_" + module, workers=4, env=env)
         run.require_tlc_ok(res, spec_name)
         r = run.vh("replay", module, res["out"], timeout=3000)
